@@ -14,7 +14,7 @@ Theorem C08_cancel_exactly_once_count_restored : forall mid0 es, let s := run (i
   (forall g, count_cancel g (s_hist s) = if in_range g (s_gidctr s) && negb (memZ g (s_observers s)) then 1%nat else 0%nat) /\
   counts_ok (s_hist s) /\ Z.of_nat (length (s_observers s)) = balance (s_hist s).
 Proof. exact bookkeeping_lemma. Qed.
-Print Assumptions C08_cancel_exactly_once_count_restored.
+(* assumptions of C08_cancel_exactly_once_count_restored: printed once, together with the other history-level theorems, at the end of this file *)
 
 (* ---- once ended: silence.  For a registration g that has ended (it is not in incoming_requests and its number has been
    issued), one event of any kind: it stays ended; nothing is handed to the message layer for it; the only datagrams
@@ -22,14 +22,14 @@ Print Assumptions C08_cancel_exactly_once_count_restored.
    share of the backlog does not grow. *)
 Theorem C08_silent_after_end_step : forall s e g, 0 <= g -> okreg g s -> Q (queued_for g s) g s (step s e).
 Proof. exact silent_step. Qed.
-Print Assumptions C08_silent_after_end_step.
+(* assumptions of C08_silent_after_end_step: printed once, together with the other history-level theorems, at the end of this file *)
 (* over every continuation of the history *)
 Theorem C08_silent_after_end : forall es s g, 0 <= g -> okreg g s ->
   okreg g (run s es) /\
   (exists l, s_prod (run s es) = l ++ s_prod s /\ Forall (fun m => m_gid m <> g) l) /\
   (exists h, s_hist (run s es) = h ++ s_hist s /\ forall m, In (OSend m false) h -> m_gid m = g -> queued_for g s m).
 Proof. exact silent_run. Qed.
-Print Assumptions C08_silent_after_end.
+(* assumptions of C08_silent_after_end: printed once, together with the other history-level theorems, at the end of this file *)
 (* the unconditional statement "no datagram for it is ever sent again" is false of the faithful model (finding F16) *)
 Theorem C08_silent_on_wire_refuted :
   let s1 := run (init 0) (firstn 3 f16_events) in let s2 := run (init 0) f16_events in
@@ -43,7 +43,7 @@ Theorem C08_ends_on_same_token_request : forall s r con mid tok obs g0,
   find_key s r tok = Some g0 -> s_down s = false -> in_recent s r mid = None -> 0 <= g_gid g0 < s_gidctr s ->
   ~ live (g_gid g0) (step s (ERequest r con mid tok obs)).
 Proof. exact ends_on_same_token. Qed.
-Print Assumptions C08_ends_on_same_token_request.
+(* assumptions of C08_ends_on_same_token_request: printed once, together with the other history-level theorems, at the end of this file *)
 (* Reset: case split — a notification that has an exchange entry, i.e. a confirmable one ... *)
 Theorem C08_ends_on_reset_of_confirmable : forall s r mid x,
   find (fun x => (x_remote x =? r) && (x_mid x =? mid)) (s_exch s) = Some x -> s_down s = false -> 0 <= x_gid x < s_gidctr s ->
@@ -96,12 +96,12 @@ Theorem C08_wire_token_and_strictly_increasing_observe : forall mid0 es g, 0 <= 
      observes (prodl g s) = somes (g_next g0 + 1) /\
      forall m, In m (wirel g s) -> m_remote m = g_remote g0 /\ m_token m = g_token g0).
 Proof. exact wire_lemma. Qed.
-Print Assumptions C08_wire_token_and_strictly_increasing_observe.
+(* assumptions of C08_wire_token_and_strictly_increasing_observe: printed once, together with the other history-level theorems, at the end of this file *)
 (* the invariant behind it holds in every reachable state (backlog entries are CON and have an exchange for their endpoint,
    a NON registration never queues, a pending piggy-back opportunity means nothing was produced yet, ...) *)
 Theorem C08_backlog_fifo_invariant : forall mid0 es, FI None (run (init mid0) es).
 Proof. intros. apply run_FI, FI_init. Qed.
-Print Assumptions C08_backlog_fifo_invariant.
+(* assumptions of C08_backlog_fifo_invariant: printed once, together with the other history-level theorems, at the end of this file *)
 Example C08_wire_nonvacuous :
   let s := run (init 0) [ERequest 1 true 1 1 (Some 0); ETrigger [] [(TRender, false)]; ETrigger [] [(TRender, false)]; ETrigger [] [(TRender, false)]; EAck 1 0] in
   map m_observe (wirel 0 s) = [Some 0; Some 1; Some 2] /\ map m_observe (queuel 0 s) = [Some 3] /\ exists g0, In g0 (s_regs s) /\ g_gid g0 = 0.
@@ -135,13 +135,13 @@ Theorem C08_latest_state_sent : forall mid0 es g0, let s := run (init mid0) es i
   g_trig g0 = None /\
   exists m, last_wire (g_gid g0) s = Some m /\ lastp (g_gid g0) s = Some m /\ (m_pk m = 1 -> m_pv m = s_version s).
 Proof. exact latest_lemma. Qed.
-Print Assumptions C08_latest_state_sent.
+(* assumptions of C08_latest_state_sent: printed once, together with the other history-level theorems, at the end of this file *)
 (* the invariant behind it, for every registration in every reachable state: an idle task has no pending trigger and its last
    produced notification is current; a render in progress without a newer trigger pending was started at the current version
    (so the notification it will produce is current; with a newer trigger pending another render follows) *)
 Theorem C08_latest_state_invariant : forall mid0 es g0, In g0 (s_regs (run (init mid0) es)) -> QV (run (init mid0) es) g0.
 Proof. intros mid0 es. exact (latest_invariant mid0 es). Qed.
-Print Assumptions C08_latest_state_invariant.
+(* assumptions of C08_latest_state_invariant: printed once, together with the other history-level theorems, at the end of this file *)
 (* the fairness hypotheses are satisfiable: slow renders, a burst of changes during a render, a notification waiting in the
    backlog until the previous one is acknowledged — then idle, nothing queued, and the last datagram carries version 3 = now *)
 Example C08_latest_state_fair_example :
@@ -175,3 +175,17 @@ Example C08_rst_on_con_example :
   let s := run (init 0) [ERequest 1 true 1 1 (Some 0); ETrigger [] [(TRender, false)]; ERst 1 0; ETrigger [] [(TRender, false)]] in
   ~ live 0 s /\ s_observers s = [] /\ count_cancel 0 (s_hist s) = 1%nat /\ notif 0 (s_hist s) = [(1, 0); (0, 1)].
 Proof. exact rst_on_con_example. Qed.
+
+(* The history-level theorems share most of their (large) proof terms; their assumptions are printed in one traversal
+   (one Print Assumptions per theorem costs 2-8 s each, 40 s in all, which does not fit the quick tier). The term below
+   mentions every one of them, so any axiom any of them depended on would be listed here. *)
+Definition C08_history_level_theorems :=
+  (C08_wire_token_and_strictly_increasing_observe,
+   C08_backlog_fifo_invariant,
+   C08_latest_state_sent,
+   C08_latest_state_invariant,
+   C08_cancel_exactly_once_count_restored,
+   C08_silent_after_end_step,
+   C08_silent_after_end,
+   C08_ends_on_same_token_request).
+Print Assumptions C08_history_level_theorems.
